@@ -131,7 +131,7 @@ def masks_for(D, tier):
     return ms + extra
 
 
-def coupling_harness(cname, mask, shape4d, mode, props, hidden=None, with_context=False, uncond=False):
+def coupling_harness(cname, mask, shape4d, mode, props, hidden=None, with_context=False, uncond=False, mutate_mask=False):
     """mode: forward | inverse | if (inverse o forward); uncond: apply_unconditional_transform=True (the identity features go through the class's
     own Piecewise...CDF transform, whose spline function is seen through the same spline contract)"""
     mkw = {"apply_unconditional_transform": True} if uncond else {}
@@ -146,7 +146,12 @@ def coupling_harness(cname, mask, shape4d, mode, props, hidden=None, with_contex
 
         def create(i, o):
             n = StubNet(i, o, hidden=hidden); nets.append(n); return n
-        m = make(torch.tensor(mask) if all(isinstance(v, int) for v in mask) else torch.tensor(mask, dtype=torch.float32), create, **mkw)
+        mask_t = torch.tensor(mask) if all(isinstance(v, int) for v in mask) else torch.tensor(mask, dtype=torch.float32)
+        m = make(mask_t, create, **mkw)
+        if mutate_mask:
+            # the caller goes on using its mask tensor (SimpleRealNVP flips it in place for the next layer): the layer already built keeps the
+            # feature sets of the mask it was constructed with
+            mask_t.mul_(-1)
         m.eval()
         ctx.notes["random_draws"] = []        # draws of the constructor (parameter initialisation) are not draws of the evaluation
         h.nets = nets
@@ -278,7 +283,10 @@ def coupling_harness(cname, mask, shape4d, mode, props, hidden=None, with_contex
             if shape4d:
                 return nets.ConvResidualNet(i, o, hidden_channels=4, num_blocks=1, context_channels=None)
             return nets.ResidualNet(i, o, hidden_features=5, num_blocks=1, context_features=2 if with_context else None)
-        m = make(torch.tensor(mask) if all(isinstance(v, int) for v in mask) else torch.tensor(mask, dtype=torch.float32), create, **mkw)
+        mask_t = torch.tensor(mask) if all(isinstance(v, int) for v in mask) else torch.tensor(mask, dtype=torch.float32)
+        m = make(mask_t, create, **mkw)
+        if mutate_mask:
+            mask_t.mul_(-1)
         m = native_cast(m)
         with torch.no_grad():
             g = torch.Generator().manual_seed(int(abs(float(np.asarray(inp["x"]).sum())) * 1000) % 100000)
@@ -356,7 +364,7 @@ def coupling_harness(cname, mask, shape4d, mode, props, hidden=None, with_contex
             d["context2"] = rng.normal(size=(2, 2))
         return d
 
-    hid = f"coupling_{cname}[mask={','.join(str(v) for v in mask)},{'4d' if shape4d else '2d'},{mode}{',hidden' if hidden else ''}{',ctx' if with_context else ''}{',uncond' if uncond else ''}]"
+    hid = f"coupling_{cname}[mask={','.join(str(v) for v in mask)},{'4d' if shape4d else '2d'},{mode}{',hidden' if hidden else ''}{',ctx' if with_context else ''}{',uncond' if uncond else ''}{',mask-mutated-after-construction' if mutate_mask else ''}]"
     return Harness(hid, run, post, native_call=native_call, native_clauses=native_clauses, sample=sample,
                    functions=[CP.CouplingTransform.forward, CP.CouplingTransform.inverse, CP.CouplingTransform.__init__, cls._coupling_transform_forward if hasattr(cls, "_coupling_transform_forward") else cls.forward],
                    config={"class": cname, "mask": [float(v) for v in mask], "4d": shape4d, "mode": mode})
@@ -379,6 +387,9 @@ def coupling_harnesses(props, tier, modes=("forward", "inverse")):
                         hs.append(coupling_harness(cname, mask, shape4d, mode, props))
     for mode in modes:
         hs.append(coupling_harness("Affine", [1, 0, 1], False, mode, props, with_context=True))
+        if "C07" in props:
+            hs.append(coupling_harness("Affine", [1, -1, 1], False, mode, props, mutate_mask=True))
+            hs.append(coupling_harness("PwRQTails", [-1, 1], False, mode, props, mutate_mask=True))
         if mode == "forward" and "C07" in props:
             hs.append(coupling_harness("Affine", [1, 0], False, "twice", props, with_context=True))
             hs.append(coupling_harness("PwRQTails", [0, 1], False, "twice", props, with_context=True))
